@@ -102,7 +102,11 @@ func c12A(e *core.Env) {
 		}
 		net.Hosts[h.Name] = g
 		for k, n := 0, e.Choose("gen", limit+4, "scriptlen"); k < n; k++ {
-			kind := c12All[e.Choose("gen", len(c12All), "kind")]
+			// an element may also be "answer normally", so that a host can fail after it has served
+			kind := 0
+			if k := e.Choose("gen", len(c12All)+4, "kind"); k < len(c12All) {
+				kind = c12All[k]
+			}
 			h.script = append(h.script, kind)
 			h.Script = append(h.Script, simnet.FaultNames[kind])
 		}
